@@ -12,9 +12,10 @@ def jobs(tier):
       Job("merge-module", M, "h_merge", dict(C20_FAMILY=0), shards=47, timeout=t,
           note="module variable (absent / plain / annotated) x 6 stub variable types x 6 function shapes "
                "(plain, partially annotated, star-args, decorated, nested, async) x 5 parameter types x 6 return types"),
-      Job("merge-class", M, "h_merge", dict(C20_FAMILY=1), shards=31, timeout=t,
+      Job("merge-class", M, "h_merge", dict(C20_FAMILY=1, C20_NPT=4 if q else 6), shards=61, timeout=t,
           note="class variable x method / staticmethod / annotated method / classmethod x stub types, "
-               "stub with and without the decorator"),
+               "stub with and without the decorator, merged first or after another pair, stub importing from typing / "
+               "typing_extensions, program with existing bare-Any annotations"),
   ]
 
 
